@@ -704,3 +704,28 @@ Proof.
     split; [exact Hcb|]. now rewrite Hfst, Hph.
   - intros f. apply ssh_connect_cb_ext.
 Qed.
+
+(* ------------------------------------------------------------------ C15_fresh_judgement (histories of sessions) *)
+Lemma ssh_history_nth : forall (pre post : list (ssh_cfg * ssh_oracle)) (c : ssh_cfg) (o : ssh_oracle),
+  nth_error (ssh_history (pre ++ (c, o) :: post)) (length pre) = Some (ssh_connect c o).
+Proof.
+  intros pre post c o. unfold ssh_history. rewrite map_app.
+  rewrite nth_error_app2 by (rewrite map_length; apply le_n).
+  rewrite map_length, PeanoNat.Nat.sub_diag. reflexivity.
+Qed.
+
+Lemma c15_fresh_judgement : forall (pre post : list (ssh_cfg * ssh_oracle)) (c : ssh_cfg) (o : ssh_oracle) (r : (trace * result)%type),
+  nth_error (ssh_history (pre ++ (c, o) :: post)) (length pre) = Some r ->
+  r = ssh_connect c o /\
+  (c_verify c = true ->
+     preceded_by sensitive is_accept (fst r) /\ (forall h, In (HostKeyAccepted h) (fst r) -> justified c o h)) /\
+  (c_verify c = true -> unjustified c o ->
+     none_of sensitive (fst r) /\
+     (snd r = Exn (SSHUnknownHost HHost (o_server_key o)) \/ snd r = Exn SSHError) /\
+     (c_pin c <> PinBad -> o_kex_ok o = true -> snd r = Exn (SSHUnknownHost HHost (o_server_key o)))).
+Proof.
+  intros pre post c o r H. rewrite ssh_history_nth in H. inversion H; subst r. clear H.
+  split; [reflexivity|]. split.
+  - intros Hv. exact (c15_verify_first c o Hv).
+  - intros Hv Hu. exact (c15_reject c o Hv Hu).
+Qed.
